@@ -11,6 +11,7 @@ import OxiaVerif.Model.Select
 import OxiaVerif.Model.Batch
 import OxiaVerif.Model.Ack
 import OxiaVerif.Model.Session
+import OxiaVerif.Model.Repl
 
 /-! Line-protocol dispatch: one operation line in, one output line out. -/
 namespace Oxia.Driver
@@ -30,6 +31,7 @@ structure State where
   sess : Session.SS := Session.SS.init
   clusterOff : Int := 0
   clusterUp : Bool := false
+  world : Repl.World := Repl.World.init 0
 
 def State.init : State := {}
 
@@ -624,6 +626,108 @@ def stepSess (st : State) (toks : List String) : State × String :=
   | ["s.dump"] => (st, sessDump s)
   | _ => (st, "bad-op")
 
+def showReplErr : Repl.Err → String
+  | .invalidTerm => "err:invalid-term" | .invalidStatus => "err:invalid-status" | .noSuchNode => "err:no-such-node"
+  | .notLeader => "err:not-leader" | .timeout => "timeout" | .invalidHead => "err:invalid-head"
+
+def parseHead (t : String) : Option (Int × Int) :=
+  match t.splitOn ":" with
+  | [a, b] => match a.toInt?, b.toInt? with
+    | some a, some b => some (a, b)
+    | _, _ => none
+  | _ => none
+
+def showNodeState (i : Nat) (n : Repl.Node) : String :=
+  let c := match n.ctrl with | .none => "-" | .leaderC => "L" | .followerC => "F"
+  let st := match n.status with | .notMember => "notmember" | .fenced => "fenced" | .follower => "follower" | .leader => "leader"
+  let st := if n.ctrl == .none then "-" else st
+  "n" ++ toString i ++ "[" ++ c ++ " t=" ++ toString n.term ++ " " ++ st ++ " log=" ++
+    String.intercalate "," (n.log.map fun e => toString e.term ++ ":" ++ toString e.id) ++
+    (if n.ctrl == .leaderC && n.status == .leader then " c=" ++ toString n.commit ++ " cur=" ++
+      String.intercalate "," ((sortBy (fun (a b : Nat × Int) => a.1 ≤ b.1) n.cursors).map fun c => toString c.1 ++ "@" ++ toString c.2) else "") ++ "]"
+
+/-- protocol scripts (C01-C05) on M-Repl -/
+def stepRepl (st : State) (toks : List String) : State × String :=
+  let w := st.world
+  let g := Facts.lateRequestCannotConvertLeader
+  let get (k : String) : String := (DbProto.kvOf toks k).getD "_"
+  if toks.head? != some "p.init" && w.nodes.length == 0 then (st, "bad-op") else
+  -- the RPCs act on settled states
+  let w := if ["p.newterm", "p.lead", "p.elect", "p.add", "p.write", "p.restart", "p.cut"].contains (toks.headD "") then Repl.settle g w else w
+  match toks with
+  | "p.init" :: _ => ({ st with world := Repl.World.init ((get "n").toNat?.getD 3) }, "ok")
+  | ["p.newterm", i, t] =>
+    match i.toNat?, t.toInt? with
+    | some i, some t =>
+      let (w', r) := Repl.newTerm w i t
+      ({ st with world := w' }, match r with | .ok h => "head=" ++ toString h.1 ++ ":" ++ toString h.2 | .error e => showReplErr e)
+    | _, _ => (st, "bad-op")
+  | "p.lead" :: i :: t :: _ =>
+    match i.toNat?, t.toInt? with
+    | some i, some t =>
+      let fm : List (Nat × (Int × Int)) := if get "fm" == "_" then [] else
+        ((get "fm").splitOn ",").filterMap fun x => match x.splitOn ":" with
+          | [f, a, b] => match f.toNat?, a.toInt?, b.toInt? with
+            | some f, some a, some b => some (f, (a, b))
+            | _, _, _ => none
+          | _ => none
+      let (w', r) := Repl.becomeLeader g w i t ((get "rf").toNat?.getD 1) fm
+      ({ st with world := w' }, match r with | .ok _ => "ok" | .error e => showReplErr e)
+    | _, _ => (st, "bad-op")
+  | ["p.elect", want, t] =>
+    -- the coordinator's election: fence every reachable node, install the responder with the best head
+    -- (the wanted one on a tie) with the other responders as followers
+    match want.toNat?, t.toInt? with
+    | some want, some t =>
+      let (w1, heads) := (List.range w.nodes.length).foldl (fun (acc : Repl.World × List (Nat × (Int × Int))) i =>
+        if acc.1.cut.contains i then acc else
+        match Repl.newTerm acc.1 i t with
+        | (w', .ok h) => (w', acc.2 ++ [(i, h)])
+        | (w', .error _) => (w', acc.2)) (w, [])
+      if 2 * heads.length ≤ w.nodes.length then ({ st with world := w1 }, "no-quorum") else
+      let better (a b : Int × Int) : Bool := a.1 > b.1 || (a.1 == b.1 && a.2 > b.2)
+      let first := match heads.find? (·.1 = want) with | some x => x | none => heads.headD (0, (-1, -1))
+      let best := heads.foldl (fun acc x => if better x.2 acc.2 then x else acc) first
+      let fm := heads.filter (·.1 ≠ best.1)
+      let (w2, r) := Repl.becomeLeader g w1 best.1 t w.nodes.length fm
+      ({ st with world := w2 }, match r with | .ok _ => "leader=" ++ toString best.1 | .error e => showReplErr e)
+    | _, _ => (st, "bad-op")
+  | ["p.add", l, t, f, h] =>
+    match l.toNat?, t.toInt?, f.toNat?, parseHead h with
+    | some l, some t, some f, some h =>
+      let (w', r) := Repl.addFollowerRpc g w l t f h
+      ({ st with world := w' }, match r with | .ok _ => "ok" | .error e => showReplErr e)
+    | _, _, _, _ => (st, "bad-op")
+  | ["p.write", i, id] =>
+    match i.toNat?, id.toNat? with
+    | some i, some id =>
+      let (w', r) := Repl.write g w i id
+      ({ st with world := w' }, match r with | .ok _ => "ok" | .error e => showReplErr e)
+    | _, _ => (st, "bad-op")
+  | ["p.cut", i] => match i.toNat? with
+    | some i => ({ st with world := { w with cut := if w.cut.contains i then w.cut else w.cut ++ [i] } }, "ok")
+    | none => (st, "bad-op")
+  | ["p.heal", i] => match i.toNat? with
+    | some i => ({ st with world := { w with cut := w.cut.filter (· ≠ i) } }, "ok")
+    | none => (st, "bad-op")
+  | ["p.restart", i] => match i.toNat? with
+    | some i => ({ st with world := Repl.restart w i }, "ok")
+    | none => (st, "bad-op")
+  | ["p.settle"] => ({ st with world := Repl.settle g w }, "ok")
+  | ["p.state"] =>
+    let w := Repl.settle g w
+    ({ st with world := w }, String.intercalate " " ((List.range w.nodes.length).map fun i => showNodeState i (Repl.getNode w i)))
+  | ["p.read", i] => match i.toNat? with
+    | some i =>
+      let w := Repl.settle g w
+      let st := { st with world := w }
+      let n := Repl.getNode w i
+      if n.ctrl == .leaderC && n.status == .leader then
+        (st, "vis=" ++ String.intercalate "," ((n.log.take (n.commit + 1).toNat).map fun e => toString e.id))
+      else (st, "err:not-leader")
+    | none => (st, "bad-op")
+  | _ => (st, "bad-op")
+
 /-- the cluster scripts of C06/C07: M-Db applies the log in one go; the routes (restart, election with
     replay, snapshot join) do not exist in the model -/
 def stepCluster (st : State) (toks : List String) : State × String :=
@@ -660,6 +764,7 @@ def step (st : State) (line : String) : State × String :=
     else if t.startsWith "db." || t.startsWith "idx." then stepDb st toks
     else if t.startsWith "sh." || t.startsWith "cs." || t.startsWith "cl." then stepShard st toks
     else if t.startsWith "sel." then stepSelect st toks
+    else if t.startsWith "p." then stepRepl st toks
     else if t.startsWith "c." then stepCluster st toks
     else if t.startsWith "s." then stepSess st toks
     else if t.startsWith "q." || t.startsWith "lc." then stepAck st toks
